@@ -114,8 +114,18 @@ func runC13(t *testing.T, sc *C13Scn) (res c13Result) {
 		case "write-fault":
 			fc.FailWriteAt, fc.WriteMode = sc.K, sc.Mode
 		}
-		fc.Arm()
 		w := ws.NewWebsocketConnection(conn, "remote-ski")
+		if sc.Kind == "local-close-in-read" {
+			// the application closes exactly while the read pump holds bytes it has just taken from the socket
+			fc.HookReadAt = sc.K
+			fc.AfterRead = func() {
+				l.Add("H", "event", 0, false, sc.Kind)
+				l.Add("A", "close-call", sc.Code, false, sc.Reason)
+				w.CloseDataConnection(sc.Code, sc.Reason)
+				l.Add("A", "close-ret", 0, false, "")
+			}
+		}
+		fc.Arm()
 		var prov *simkit.Provider
 		if sc.Reader == "ship" {
 			prov = simkit.NewProvider("E", l, true, false, true)
@@ -204,7 +214,8 @@ func runC13(t *testing.T, sc *C13Scn) (res c13Result) {
 
 func genC13(r *vc.Rand, i int) *C13Scn {
 	sc := &C13Scn{LibIsClient: r.Bool()}
-	sc.Kind = vc.Pick(r, []string{"read-fault", "read-fault", "write-fault", "write-fault", "peer-close", "peer-eof", "local-close", "local-close", "healthy"})
+	sc.Kind = vc.Pick(r, []string{"read-fault", "read-fault", "write-fault", "write-fault", "peer-close", "peer-eof", "local-close", "local-close", "healthy",
+		"local-close-in-read", "local-close-in-read"})
 	sc.Reader = vc.Pick(r, []string{"reacting", "reacting", "reacting", "reacting-reason", "ship", "passive"})
 	n := r.Range(0, 8)
 	for k := 0; k < n; k++ {
@@ -233,13 +244,20 @@ func genC13(r *vc.Rand, i int) *C13Scn {
 		if sc.Code >= 0 && r.Bool() {
 			sc.Reason = "bye"
 		}
-	case "local-close":
+	case "local-close", "local-close-in-read":
 		sc.Code = vc.Pick(r, []int{4001, 4452, 4500})
 		if r.Bool() {
 			sc.Reason = "close"
 		}
+		if sc.Kind == "local-close-in-read" {
+			if ins == 0 {
+				sc.Steps = append(sc.Steps, "in")
+				ins++
+			}
+			sc.K = r.Range(1, 2*ins+sleeps)
+		}
 	}
-	if sc.Kind != "read-fault" && sc.Kind != "write-fault" && sc.Kind != "healthy" {
+	if sc.Kind != "read-fault" && sc.Kind != "write-fault" && sc.Kind != "healthy" && sc.Kind != "local-close-in-read" {
 		pos := r.Intn(len(sc.Steps) + 1)
 		sc.Steps = append(sc.Steps[:pos:pos], append([]string{"EVENT"}, sc.Steps[pos:]...)...)
 	}
@@ -294,13 +312,13 @@ func evalC13(col *vc.Collector, sc *C13Scn, res c13Result) {
 	// did the disturbance actually happen in this session?
 	disturbed := false
 	switch sc.Kind {
-	case "read-fault", "write-fault":
+	case "read-fault", "write-fault", "local-close-in-read":
 		disturbed = res.Faulted
 	case "peer-close", "peer-eof", "local-close":
 		disturbed = true
 	}
 	kind := sc.Kind
-	if (sc.Kind == "read-fault" || sc.Kind == "write-fault") && !res.Faulted {
+	if (sc.Kind == "read-fault" || sc.Kind == "write-fault" || sc.Kind == "local-close-in-read") && !res.Faulted {
 		kind = "healthy(fault index beyond session)"
 	}
 	col.Class(prop, fmt.Sprintf("%s:%s:%s:reader=%s:client=%v", kind, sc.Mode, codeClass(sc), sc.Reader, sc.LibIsClient))
@@ -324,14 +342,14 @@ func evalC13(col *vc.Collector, sc *C13Scn, res c13Result) {
 		}
 	}
 	switch {
-	case disturbed && sc.Kind != "local-close":
+	case disturbed && sc.Kind != "local-close" && sc.Kind != "local-close-in-read":
 		if reports == 0 {
 			v("error-not-reported", "transport failed / peer closed but ReportConnectionError was never called")
 		}
 		if !res.Closed || res.ClosedErr == "" {
 			v("closed-query-wrong", fmt.Sprintf("IsDataConnectionClosed() = (%v, %q)", res.Closed, res.ClosedErr))
 		}
-	case sc.Kind == "local-close":
+	case sc.Kind == "local-close" || sc.Kind == "local-close-in-read" && disturbed:
 		if reports > 0 && !shipReader {
 			v("error-reported-after-local-close", "deliberate local close of a healthy connection was reported as an error")
 		}
